@@ -61,10 +61,11 @@ CHECKS = {
 
  'C09': dict(
    text='Proof (reference codes, all formats): the raw quotient floor(a*2^k/b) lies below the exact quotient by less than one LSB (C09_truediv_within_one_lsb), is exact when representable, and is inside the optimal format '
-        'for every pair of operand formats (C09_truediv_no_overflow, a bound lemma); x//y is floor(x/y); x%y = x - y*floor(x/y) with the divisor sign and (x//y)*y + x%y = x (C09_mod_and_reconstruction). Model: C09_truediv_raw_model_partial '
-        'proves that the dtype-level model of _truediv_raw + set_val returns exactly that code for operands of equal signedness up to 26 bits. PARTIAL: mixed signedness (float64 floor_divide), the repr method (rounded double quotient), '
-        'and the model-level // and % are not theorems; the correspondence run checks the property relations with exact rationals on the implementation output (neighbour relation, floor, modulo, reconstruction, formats) and compares the model on every case.',
-   design='7/C09', technique='Coq proof of the division laws and bounds + partial model theorem + differential correspondence'),
+        'for every pair of operand formats (C09_truediv_no_overflow); x//y is floor(x/y); x%y = x - y*floor(x/y) with the divisor sign and (x//y)*y + x%y = x (C09_mod_and_reconstruction); the floor quotient and the modulo fit their optimal formats (C09_floordiv_mod_no_overflow). '
+        'Model: C09_truediv_raw_model, C09_floordiv_raw_model, C09_mod_raw_model prove that the dtype-level model of _truediv_raw / _floordiv_raw / _mod_raw + set_val(raw=True) stores exactly those codes with no flag for operands of ANY signedness combination '
+        '(mixed signedness through float64 floor_divide / remainder), words up to 26 bits, arrays of any positive length. PARTIAL: the repr method of x/y (rounded double quotient, then the configured rounding) is not a theorem; '
+        'the correspondence run checks the property relations with exact rationals on the implementation output (neighbour relation, floor, modulo, reconstruction, formats, raw = repr on // and %) and compares the model on every case.',
+   design='7/C09', technique='Coq proof of the division laws, bounds and raw-method model (all signedness combinations) + differential correspondence (repr method of true division)'),
 
  'C16': dict(
    text='Proof: for any two formats up to 52 bits (any signedness / n_frac mix) each of the six relations computed on get_val() equals the relation between the exact stored values (C16_compare_fxp, C16_compare_number: float comparison of exact doubles = '
